@@ -85,14 +85,37 @@ fn args_runner_fn() -> crate::benchmark::BenchArgsRunner {
 }
 fn print_stub(_a: std::fmt::Arguments<'_>) {}
 fn p_start_leaf(_p: &mut TreePainter, _n: &str, _l: bool) {
-    unsafe { G.painted_leaf += 1; }
+    unsafe {
+        if (G.painted_leaf as usize) < 4 {
+            PF.leaf_last[G.painted_leaf as usize] = _l;
+        }
+        G.painted_leaf += 1;
+    }
 }
+/// is_last flags the driver hands to the painter (C20: glyphs encode the true position)
+struct PFlags {
+    magic: u64,
+    leaf_last: [bool; 4],
+    parent_last: [bool; 4],
+    parents: u32,
+    finished_parents: u32,
+}
+static mut PF: PFlags = PFlags { magic: 0xD1FA_57A7_1C00_2001, leaf_last: [false; 4], parent_last: [false; 4], parents: 0, finished_parents: 0 };
 fn p_finish_empty(_p: &mut TreePainter) {}
 fn p_ignore_leaf(_p: &mut TreePainter, _n: &str, _l: bool) {
     unsafe { G.painted_ignored += 1; }
 }
-fn p_start_parent(_p: &mut TreePainter, _n: &str, _l: bool) {}
-fn p_finish_parent(_p: &mut TreePainter) {}
+fn p_start_parent(_p: &mut TreePainter, _n: &str, _l: bool) {
+    unsafe {
+        if (PF.parents as usize) < 4 {
+            PF.parent_last[PF.parents as usize] = _l;
+        }
+        PF.parents += 1;
+    }
+}
+fn p_finish_parent(_p: &mut TreePainter) {
+    unsafe { PF.finished_parents += 1; }
+}
 fn p_finish_leaf(_p: &mut TreePainter, _l: bool, _s: &crate::stats::Stats, _f: BytesFormat) {
     panic!("statistics printed while listing")
 }
@@ -281,6 +304,10 @@ fn c15_run_tree_descent() {
     let none = BenchOptions::default();
     let (ea, eb, ec) = (if set[0] { &a } else { &none }, if set[1] { &b } else { &none }, if set[2] { &c } else { &none });
     unsafe {
+        // C20: every level is entered and left exactly once; an only child is the last child
+        assert_eq!(PF.parents, 3);
+        assert_eq!(PF.finished_parents, 3);
+        assert!(PF.parent_last[0] && PF.parent_last[1] && PF.parent_last[2]);
         assert_eq!(G.rec_calls, 1);
         assert_eq!(G.rec_some, set[0] || set[1] || set[2]);
         let r = match &REC { Some(r) => r, None => &none };
@@ -427,10 +454,12 @@ fn drv_args_runner() -> crate::benchmark::BenchArgsRunner {
     )
 }
 
-// @cell props=C17,C13 tier=quick kind=core timeout=2400 mem=24 cls=K ignore_re=write_bytes::<\{closure@.*\|memset.destination.region.writeable
+// @cell props=C17,C13,C12,C20 tier=quick kind=core timeout=2400 mem=24 cls=K ignore_re=write_bytes::<\{closure@.*\|memset.destination.region.writeable
 // @desc run_bench_entry (test mode) on an args benchmark with 3 symbolic argument values after the tree kept two
 // @desc of the three names in an arbitrary order (symbolic i != j: any filter + sort outcome): the function runs
-// @desc exactly twice, with the argument named by the first kept label, then with the one named by the second
+// @desc exactly twice, with the argument named by the first kept label, then with the one named by the second (also
+// @desc when two arguments render to the same label: one case per value); the painter is told that only the second
+// @desc kept row is the last child
 #[kani::proof]
 #[kani::unwind(5)]
 #[kani::stub(std::io::_print, print_stub)]
@@ -459,8 +488,17 @@ fn c17_driver_runs_kept_args() {
     let d = Divan::default();
     let shared = SharedContext { action: Action::Test, timer: Timer::Os, thread_pool: ThreadPool::new() };
     let painter = RefCell::new(TreePainter::new(0, [0; TreeColumn::COUNT]));
-    d.run_bench_entry(Action::Test, AnyBenchEntry::Bench(&entry), Some(&kept[..]), &shared, None, &painter, true);
+    let entry_is_last: bool = kani::any();
+    d.run_bench_entry(Action::Test, AnyBenchEntry::Bench(&entry), Some(&kept[..]), &shared, None, &painter, entry_is_last);
     unsafe {
+        // C20: the benchmark is opened as a parent carrying the entry's own position; of the two kept argument rows
+        // only the second is drawn as the last child, whatever was filtered out of the original three
+        assert_eq!(PF.parents, 1);
+        assert_eq!(PF.finished_parents, 1);
+        assert_eq!(PF.parent_last[0], entry_is_last);
+        assert_eq!(G.painted_leaf, 2);
+        assert!(!PF.leaf_last[0] && PF.leaf_last[1]);
+        assert_eq!(PF.magic, 0xD1FA_57A7_1C00_2001);
         assert_eq!(AG.n, 2);
         assert_eq!(AG.got[0], v[i]);
         assert_eq!(AG.got[1], v[j]);
@@ -469,7 +507,60 @@ fn c17_driver_runs_kept_args() {
     // the labels are the renderings of those very arguments
     assert_eq!(kept[0].as_bytes()[0], b'a' + (v[i] & 15));
     kani::cover!(i == 2 && j == 0 && v[0] != v[2]);
+    kani::cover!((v[i] & 15) == (v[j] & 15) && v[i] != v[j]);
     kani::cover!(i == 1 && j == 2);
+    std::mem::forget(d);
+    std::mem::forget(entry);
+    std::mem::forget(shared);
+    std::mem::forget(painter);
+}
+
+// @cell props=C17,C13,C12,C20 tier=quick kind=core timeout=2400 mem=24 cls=K ignore_re=write_bytes::<\{closure@.*\|memset.destination.region.writeable
+// @desc the same when nothing was filtered out: all three names kept, in an arbitrary order (symbolic permutation =
+// @desc any sort outcome): three runs, each with the argument its label names; only the third row is the last child
+#[kani::proof]
+#[kani::unwind(5)]
+#[kani::stub(std::io::_print, print_stub)]
+#[kani::stub(std::io::_eprint, print_stub)]
+#[kani::stub(alloc::fmt::format, format_stub)]
+#[kani::stub(crate::tree_painter::TreePainter::start_leaf, p_start_leaf)]
+#[kani::stub(crate::tree_painter::TreePainter::finish_empty_leaf, p_finish_empty)]
+#[kani::stub(crate::tree_painter::TreePainter::ignore_leaf, p_ignore_leaf)]
+#[kani::stub(crate::tree_painter::TreePainter::start_parent, p_start_parent)]
+#[kani::stub(crate::tree_painter::TreePainter::finish_parent, p_finish_parent)]
+#[kani::stub(crate::tree_painter::TreePainter::finish_leaf, p_finish_leaf)]
+#[kani::stub(std::hash::RandomState::new, rs_stub)]
+fn c17_driver_runs_all_args_permuted() {
+    let v: [u8; 3] = [kani::any(), kani::any(), kani::any()];
+    unsafe { AG.vals = v; }
+    let entry = BenchEntry {
+        meta: EntryMeta { display_name: "b", raw_name: "b", module_path: "m", location: LOC, bench_options: None },
+        bench: BenchEntryRunner::Args(drv_args_runner),
+    };
+    let names: &'static [&'static str] = AnyBenchEntry::Bench(&entry).arg_names().unwrap();
+    assert_eq!(names.len(), 3);
+    let i: usize = kani::any();
+    let j: usize = kani::any();
+    kani::assume(i < 3 && j < 3 && i != j);
+    let k = 3 - i - j;
+    let kept: [&&str; 3] = [&names[i], &names[j], &names[k]];
+    let d = Divan::default();
+    let shared = SharedContext { action: Action::Test, timer: Timer::Os, thread_pool: ThreadPool::new() };
+    let painter = RefCell::new(TreePainter::new(0, [0; TreeColumn::COUNT]));
+    d.run_bench_entry(Action::Test, AnyBenchEntry::Bench(&entry), Some(&kept[..]), &shared, None, &painter, true);
+    unsafe {
+        assert_eq!(PF.parents, 1);
+        assert_eq!(PF.finished_parents, 1);
+        assert_eq!(G.painted_leaf, 3);
+        assert!(!PF.leaf_last[0] && !PF.leaf_last[1] && PF.leaf_last[2]);
+        assert_eq!(AG.n, 3);
+        assert_eq!(AG.got[0], v[i]);
+        assert_eq!(AG.got[1], v[j]);
+        assert_eq!(AG.got[2], v[k]);
+        assert_eq!(AG.magic, 0xD1FA_57A7_1C00_1702);
+    }
+    kani::cover!(i == 2 && j == 0 && v[0] != v[2] && v[1] != v[0]);
+    kani::cover!(i == 0 && j == 1);
     std::mem::forget(d);
     std::mem::forget(entry);
     std::mem::forget(shared);
